@@ -48,9 +48,30 @@ Definition convert_fit_series (ds : list A) (vals : list R) : list (list R) :=
 Definition convert_query_series (nf : nat) (vals : list R) : list (list R) :=
   if Nat.eqb nf 1 then as_column vals else as_row vals.
 
+(* MAB._validate_context_width (fix D26): predict / predict_expectations reject contexts of another width than the bandit was trained
+   on BEFORE the policy - and its random generator - is touched.  [vstep] is [step] behind that validation. *)
+Definition query_shape_ok (i : @imp R A G) (cx : option (@ctxs R)) : bool :=
+  match octx cx with
+  | [] => true
+  | _ :: _ =>
+      match i with
+      | ICf _ => true
+      | ILin s => match l_nf s with Some d => Nat.eqb d (ncols (octx cx)) | None => true end
+      | INbr s => width_ok (n_cx s) (octx cx)
+      | IClu s => width_ok (k_cx s) (octx cx)
+      | ITree s => match t_nf s with Some d => Nat.eqb d (ncols (octx cx)) | None => true end
+      end
+  end.
+
+Definition vstep (m : @mab R A G) (o : @op R A) : @mab R A G * @out R A :=
+  match o with
+  | Predict cx _ | PredictExp cx _ => if query_shape_ok (m_imp m) cx then step N aeqb RG m o else (m, ORejected)
+  | _ => step N aeqb RG m o
+  end.
+
 Definition sstep (m : @mab R A G) (o : sop) : @mab R A G * @out R A :=
   match o with
-  | SPlain o => step N aeqb RG m o
+  | SPlain o => vstep m o
   | SFitS ds rs vals orc =>
       if series_fit_ok ds vals then step N aeqb RG m (Fit ds rs (Some (convert_fit_series ds vals)) orc) else (m, ORejected)
   | SPartialFitS ds rs vals orc =>
@@ -59,13 +80,13 @@ Definition sstep (m : @mab R A G) (o : sop) : @mab R A G * @out R A :=
       if negb (m_fitted m) then (m, ORejected) else
       match mab_num_features m with
       | None => (m, ORejected)
-      | Some nf => step N aeqb RG m (Predict (Some (convert_query_series nf vals)) orc)
+      | Some nf => vstep m (Predict (Some (convert_query_series nf vals)) orc)
       end
   | SPredictExpS vals orc =>
       if negb (m_fitted m) then (m, ORejected) else
       match mab_num_features m with
       | None => (m, ORejected)
-      | Some nf => step N aeqb RG m (PredictExp (Some (convert_query_series nf vals)) orc)
+      | Some nf => vstep m (PredictExp (Some (convert_query_series nf vals)) orc)
       end
   end.
 
@@ -77,23 +98,36 @@ Fixpoint srun (m : @mab R A G) (ops : list sop) : @mab R A G * list (@out R A) :
 
 (* ---- what the layer guarantees -------------------------------------------------------------------------------- *)
 (* every call with a Series either changes nothing or is the same call with a 2-D array *)
+(* the validation either lets the call through unchanged or rejects it without touching anything *)
+Theorem vstep_is_step_or_rejects_unchanged (m : @mab R A G) (o : @op R A) :
+  vstep m o = step N aeqb RG m o \/ vstep m o = (m, ORejected).
+Proof. destruct o; cbn [vstep]; try (left; reflexivity); destruct (query_shape_ok (m_imp m) cx); [left | right | left | right]; reflexivity. Qed.
+
+(* C17: a query of another width is rejected and leaves the bandit - generator included - as it was *)
+Theorem query_of_another_width_is_rejected_unchanged (m : @mab R A G) cx orc :
+  query_shape_ok (m_imp m) cx = false ->
+  vstep m (Predict cx orc) = (m, ORejected) /\ vstep m (PredictExp cx orc) = (m, ORejected).
+Proof. intros H. cbn [vstep]. rewrite H. split; reflexivity. Qed.
+
 Theorem series_call_is_an_array_call (m : @mab R A G) (o : sop) :
   (exists o', sstep m o = step N aeqb RG m o') \/ sstep m o = (m, ORejected).
 Proof.
+  assert (V : forall o', (exists o'', vstep m o' = step N aeqb RG m o'') \/ vstep m o' = (m, ORejected)).
+  { intros o'. destruct (vstep_is_step_or_rejects_unchanged m o') as [E|E]; [left; eexists; exact E | right; exact E]. }
   destruct o as [o|ds rs vals orc|ds rs vals orc|vals orc|vals orc]; cbn [sstep].
-  - left; eexists; reflexivity.
+  - apply V.
   - destruct (series_fit_ok ds vals); [left; eexists; reflexivity | right; reflexivity].
   - destruct (series_fit_ok ds vals); [left; eexists; reflexivity | right; reflexivity].
-  - destruct (negb (m_fitted m)); [right; reflexivity|]. destruct (mab_num_features m); [left; eexists; reflexivity | right; reflexivity].
-  - destruct (negb (m_fitted m)); [right; reflexivity|]. destruct (mab_num_features m); [left; eexists; reflexivity | right; reflexivity].
+  - destruct (negb (m_fitted m)); [right; reflexivity|]. destruct (mab_num_features m); [apply V | right; reflexivity].
+  - destruct (negb (m_fitted m)); [right; reflexivity|]. destruct (mab_num_features m); [apply V | right; reflexivity].
 Qed.
 
 (* a Series query is answered exactly as the array the remembered feature count dictates: several rows of one feature
    when the bandit was trained on ONE feature, one row otherwise *)
 Theorem series_query_is_read_by_the_trained_width (m : @mab R A G) vals orc nf :
   m_fitted m = true -> mab_num_features m = Some nf ->
-  sstep m (SPredictExpS vals orc) = step N aeqb RG m (PredictExp (Some (if Nat.eqb nf 1 then as_column vals else as_row vals)) orc) /\
-  sstep m (SPredictS vals orc) = step N aeqb RG m (Predict (Some (if Nat.eqb nf 1 then as_column vals else as_row vals)) orc).
+  sstep m (SPredictExpS vals orc) = vstep m (PredictExp (Some (if Nat.eqb nf 1 then as_column vals else as_row vals)) orc) /\
+  sstep m (SPredictS vals orc) = vstep m (Predict (Some (if Nat.eqb nf 1 then as_column vals else as_row vals)) orc).
 Proof. intros Hf Hn. cbn [sstep]. rewrite Hf, Hn. split; reflexivity. Qed.
 
 (* training: a column when there are several decisions, one row for a single decision; anything else is rejected unchanged *)
